@@ -888,3 +888,19 @@ Lemma source_tables :
   MAX_REQUEST_SIZE = G_MAX_REQUEST_SIZE /\
   forallb open_row_ok G_open_table = true /\ map fst G_open_table = [0; 1; 2; 3; 4; 5; 6; 7].
 Proof. split; [reflexivity|]. split; vm_compute; reflexivity. Qed.
+
+(* a refused seek (negative target) with nothing pending leaves the file exactly as it was: read-ahead
+   buffer, both positions and the server handle -- so whatever follows behaves as if it had not happened *)
+Lemma refused_seek_keeps_state fuel (f : sfile) off whence :
+  wbuf f = [] ->
+  (if whence =? 0 then off else if whence =? 1 then pos f + off
+   else zlen (s_content (strm f)) + off) < 0 ->
+  exists f', sf_seek fuel f off whence = (FExn, f') /\
+    rbuf f' = rbuf f /\ wbuf f' = [] /\ pos f' = pos f /\ realpos f' = realpos f /\ strm f' = strm f.
+Proof.
+  intros Hw Hneg. unfold sf_seek, bf_flush. rewrite Hw.
+  assert (E : write_all s_write fuel f [] = Some f) by (destruct fuel; reflexivity).
+  rewrite E. cbn [pos strm upd_wr].
+  match goal with |- context [if ?c then _ else _] => replace c with true by (symmetry; apply Z.ltb_lt; exact Hneg) end.
+  eexists. split; [reflexivity|]. cbn. repeat split; reflexivity.
+Qed.
